@@ -27,6 +27,10 @@ type built struct {
 	insideExpanded bool
 	// expandedItself: that value is the list or object built from the text
 	expandedItself bool
+	// holderSrc: the source of the holder of the faulty setting where the
+	// route knows that the holder comes from one operation (demanded when
+	// nothing exists at the setting itself)
+	holderSrc string
 }
 
 type route struct {
@@ -302,6 +306,38 @@ func planStoredRoutes(r *rand.Rand, V *model.Node, p []seg, f fault, base string
 	var out []route
 	src := func(k int) string { return base + "-op" + strconv.Itoa(k) }
 
+	// (ii) a dictionary on the fault path replaced as a whole through a
+	// per-field policy: the earlier operand holds the same tree with one more
+	// key in that dictionary, the later operand (FieldReplaceValues(<path>))
+	// delivers the dictionary again. Everything at and below it, the
+	// dictionary itself included, then comes from the later operand.
+	var fieldReplace []route
+	{
+		var hs [][]seg
+		for j := 1; j <= len(p); j++ {
+			if p[j-1].isIdx {
+				break // per-field options for concrete list positions are another matter
+			}
+			if n := getNode(V, p[:j]); n != nil && n.Kind == model.KSub && !n.HasA && len(n.D) > 0 {
+				hs = append(hs, p[:j])
+			}
+		}
+		if len(hs) > 0 {
+			h := hs[r.Intn(len(hs))]
+			fieldReplace = append(fieldReplace, route{"merge-field-replace", func(T *model.Node) (built, error) {
+				n := getNode(T, h)
+				if n == nil || n.Kind != model.KSub || n.HasA || len(n.D) == 0 {
+					return built{}, errNotApplicable // the fault took the dictionary away
+				}
+				old := T.Copy()
+				getNode(old, h).D["zz_old"] = model.P("old")
+				pol := []ucfg.Option{ucfg.FieldReplaceValues(pathStr(h))} // behind PathSep(".")
+				c, desc, err := mergeChain([]*model.Node{old, T}, []string{src(0), src(1)}, pol, "merge-field-replace("+pathStr(h)+")")
+				return built{cfg: c, desc: desc, exactSrc: src(1), holderSrc: src(1)}, err
+			}})
+		}
+	}
+
 	if f.del {
 		// the setting is missing because it was removed
 		out = append(out, route{"remove-key", func(T *model.Node) (built, error) {
@@ -327,8 +363,9 @@ func planStoredRoutes(r *rand.Rand, V *model.Node, p []seg, f fault, base string
 				return built{cfg: c, desc: desc, exactSrc: src(0)}, err
 			}})
 		}
-		return out
+		return append(out, fieldReplace...)
 	}
+	out = append(out, fieldReplace...)
 
 	last := p[len(p)-1]
 
@@ -390,6 +427,28 @@ func planStoredRoutes(r *rand.Rand, V *model.Node, p []seg, f fault, base string
 				exact = ""
 			}
 			return built{cfg: c, desc: desc, exactSrc: exact}, err
+		}})
+	}
+
+	// (ii) the holder of the faulty setting has both a list part and a
+	// dictionary part: a later operand adds a named setting to the list the
+	// faulty element belongs to, or a first element to the dictionary the
+	// faulty member belongs to
+	if len(p) >= 2 {
+		q := p[:len(p)-1]
+		out = append(out, route{"mixed-holder", func(T *model.Node) (built, error) {
+			h := getNode(T, q)
+			if h == nil || h.Kind != model.KSub || len(h.D)+len(h.A) == 0 {
+				return built{}, errNotApplicable
+			}
+			add := spine(T, q, func(*model.Node) *model.Node {
+				if last.isIdx {
+					return model.Dict().Set("zz_named", model.P("mixed"))
+				}
+				return model.List(model.P("mixed"))
+			})
+			c, desc, err := mergeChain([]*model.Node{T, add}, []string{src(0), src(1)}, nil, "mixed-holder")
+			return built{cfg: c, desc: desc, exactSrc: src(0)}, err
 		}})
 	}
 
